@@ -105,6 +105,13 @@ CHECKS = {
                      "unit / non-unit axes; results (which lines or ordinals, order, count, acceptance) are compared with a model of segyio's own slice "
                      "semantics read from segyio/line.py and validated against real segyio in every replay. Bounded model checking.",
                 design='DESIGN.md 7/C13'),
+    'C16': dict(text="Thread programs (queue / thread / file operations of run_conversion_loop, the producers, compressor and writer, incl. the "
+                     "give-up path of any get-with-timeout) are extracted from the real code on every run for each route and n; a z3 transition system "
+                     "with one symbolic scheduler choice per step shows for n = 1..3 plane sets and capacities 1, 2, 16 that no schedule deadlocks "
+                     "before the call returns, that at return the file log is header + blocks 1..n in order exactly once, and that no thread can "
+                     "move afterwards. Counterexample schedules are forced on the real functions by a scripted scheduler. Bounded model checking.",
+                design='DESIGN.md 7/C16',
+                technique="bounded model checking with z3 of thread programs extracted from the real code (symbolic scheduler; sat schedules forced on the real functions)"),
 }
 
 NOT_YET = "check not built yet in this session (work in progress; see DESIGN.md section 11 build order)"
@@ -147,7 +154,10 @@ def main():
     print("MANIFEST.json: %d checks, %d not_applicable" % (len(checks), len(na)))
 
 
-NA = {}
+NA = {
+    'C06': "the property's subject is what segyio's C library writes and re-reads (re-opening the exported file, IBM rounding, effect of binary-header "
+           "fields): outside symbolic execution of the Python code; the repo-side plumbing (trace/header lists handed to segyio.create) is not claimed separately",
+}
 
 if __name__ == '__main__':
     main()
